@@ -675,11 +675,18 @@ def gen_shape(rng, d, leaves=('old', 'ext', 'tt', 'tbt'), inner=('etod', 'deco',
     if k == 'deco':
         return ['deco', gen_shape(rng, d - 1, leaves, inner, ff, fattr)]
     if k == 'tagger':
-        new = gen_tagset(rng, 6)
-        return ['tagger', new, [t for t in gen_tagset(rng, 6) if t not in new], gen_shape(rng, d - 1, leaves, inner, ff, fattr)]
+        return gen_tagger(rng, gen_shape(rng, d - 1, leaves, inner, ff, fattr))
     if k in ('tfr', 'e2s'):
         return [k, target()]
     return ['multi'] + [target() for _ in range(rng.choice([1, 2, 2, 3]))]
+
+
+def gen_tagger(rng, child):
+    """30% of the taggers only remove tags - drawn from the pool the histories use at run level (gen_tags_call)"""
+    if rng.random() < 0.3:
+        return ['tagger', [], sorted(rng.sample(range(4), rng.choice([1, 1, 2]))), child]
+    new = gen_tagset(rng, 6)
+    return ['tagger', new, [t for t in gen_tagset(rng, 6) if t not in new], child]
 
 
 def shrink_shape(s):
